@@ -88,6 +88,9 @@ pub struct AyState {
     pub sel: u8,
     pub regs: [u8; 16],
     pub enabled: bool,
+    /// the machine has been running for several frames since the registers were written: a
+    /// one-shot envelope has finished, the generator is no longer at the start of its shape
+    pub played: bool,
 }
 
 /// Everything a machine description carries. Field names = keys of the driver's `mach` request.
@@ -200,11 +203,12 @@ impl MState {
         if let Some(ay) = &self.ay {
             // the chip has been programmed through the ports: it holds registers 0..13
             s.push_str(&format!(
-                " ay={:x},{},{},{}",
+                " ay={:x},{},{},{},{}",
                 ay.sel,
                 crate::util::hex(&ay.regs),
                 crate::util::hex(&ay.regs[..14]),
-                ay.enabled as u8
+                ay.enabled as u8,
+                !ay.played as u8
             ));
         }
         s.push_str(&format!(" kemp={} mouse={}", self.kemp as u8, self.mouse as u8));
@@ -242,7 +246,7 @@ impl MState {
         }
         if let Some(a) = kv.get("ay") {
             let p: Vec<&str> = a.split(',').collect();
-            if p.len() == 4 {
+            if p.len() >= 4 {
                 let regs = crate::util::unhex(p[1]);
                 let mut r16 = [0u8; 16];
                 for (k, b) in regs.iter().take(16).enumerate() {
@@ -252,6 +256,7 @@ impl MState {
                     sel: u8::from_str_radix(p[0], 16).unwrap_or(0),
                     regs: r16,
                     enabled: p[3] == "1",
+                    played: p.len() >= 5 && p[4] == "0",
                 });
             }
         }
@@ -328,10 +333,28 @@ pub fn build(st: &MState) -> Emu {
             }
             e.verif_write_io(0xFFFD, ay.sel);
         }
+        if ay.played {
+            let_frames_pass(&mut e, st.m128, 6);
+        }
     }
     set_cpu(&mut e, st);
     e.verif_set_frame_clocks(0);
     e
+}
+
+/// Lets `frames` frames of emulated time pass without CPU activity (the sound chip keeps running; the
+/// sample queue is drained so that it never stalls), then on to the next frame start.
+pub fn let_frames_pass(e: &mut Emu, m128: bool, frames: usize) {
+    let frame_len = if m128 { 70908 } else { 69888 };
+    for _ in 0..frames * 8 {
+        e.verif_wait(frame_len / 8);
+        while e.next_audio_sample().is_some() {}
+    }
+    let c = e.verif_frame_clocks();
+    if c > 0 && c < frame_len {
+        e.verif_wait(frame_len - c);
+    }
+    while e.next_audio_sample().is_some() {}
 }
 
 pub fn set_cpu(e: &mut Emu, st: &MState) {
